@@ -17,6 +17,26 @@ CHECKS = {
          "Every sequence of (message, inter-arrival delay) pairs up to length 5 (6 thorough) over a boundary alphabet (interval-1ns, interval, interval+1ns, 0, 1ns, 3*interval), via Print, Printf and alternating, compared step by step with the statement's reference limiter; plus the limiter as wired into a real MotionProcessor (recurring refusal over 3.5 min of injected time at six frame periods). Exhaustive over that alphabet and length.",
          "Messages and delays outside the alphabet are not explored; the clock is injected through the limiter's only func() time.Time field (found by type); output captured from the standard logger.",
          "DESIGN.md §4 C20"),
+ "C01": ("A-sequential-explorer",
+         "exhaustive deviation-bounded enumeration of event strings on the real MotionProcessor (real detector, ring, window), trace oracle on the recorder sink",
+         "Every motion bit-string to depth 12 (15 thorough) and every string to depth 10 (12) with <=2 deviations (bad frame, camera reset, disk-check/creation refusal, closed window) for every configuration of the recorder lattice (99 quick / 297 thorough, ring capacities 1..9), through both entry points; the sink trace must be consecutive ids, globally increasing, and tile after a near re-trigger.",
+         "Streams longer than the depth bound and configurations outside the lattice are not enumerated (the code depends on them only through cap/minF/maxF). Frame identity rides in Status.FrameCount.",
+         "DESIGN.md §4 C01"),
+ "C02": ("A-sequential-explorer",
+         "same exhaustive enumeration as C01; oracle on the first frame written after each successful start",
+         "Same executions as C01; for each successful start at trigger t the frames written while t is processed must be exactly max(t-(cap-1), last+1, 1)..t. Every ring phase (wrap position x mark position x not-yet-full) of capacities 1..9 is reached by the enumeration.",
+         "As C01.",
+         "DESIGN.md §4 C02"),
+ "C03": ("A-sequential-explorer",
+         "exhaustive enumeration of motion bit-strings over a min/max-length lattice on the real MotionProcessor; per-recording stop-position oracle",
+         "Every motion bit-string of length min(15 (19 thorough), cap+2*maxF+3) for every configuration of a lattice built around the limits (min-secs 0..4, max-secs up to min+4, fps 1..3, preview 0/1, trigger 0..2), so motion at every offset incl. the last frame before the limit and the frame at the cap; stop position must equal the first offset p >= min(q+minF-1, maxF).",
+         "Configurations whose two-recording horizon exceeds the depth cap are covered to the cap only (count reported in evidence).",
+         "DESIGN.md §4 C03"),
+ "C04": ("A-sequential-explorer",
+         "exhaustive enumeration of motion strings x per-frame gate answers (real window.Window with injected clock at the boundaries, disk check, file creation), iff-oracle",
+         "Every event string to depth 8 (9) with <=2 (3) per-frame gate deviations from the full menu (window clock at start-1ns/start/start+1s/stop-1ns/stop/stop+1s/other day for a day window, a window spanning midnight and no window; disk check refused; creation refused; combinations), trigger-frames 0..3; a start must happen iff all five conditions of the statement hold, using the harness's own interval arithmetic.",
+         "CPTVFileRecorder.checkDiskSpace itself (statfs arithmetic) is exercised in the C10/C11 file-level harness, not here.",
+         "DESIGN.md §4 C04"),
 }
 NOT_BUILT = "check not built yet (work in progress)"
 
